@@ -33,7 +33,8 @@ fn text() -> impl Parser<char, char, Error = Cheap<char>> {
 
 // quoted-pair     =       ("\" text) / obs-qp
 fn quoted_pair() -> impl Parser<char, char, Error = Cheap<char>> {
-    just('\\').ignore_then(text())
+    // obs-qp also allows NUL, LF and CR
+    just('\\').ignore_then(choice((text(), one_of("\0\n\r"))))
 }
 
 // 3.2.3. Folding white space and comments
